@@ -565,3 +565,9 @@ PROPS["C14"]["rule"] += (" A further family is runaway recursion (direct, mutual
 PROPS["C12"]["rule"] += (" A third of the workloads run with the cron state hooks installed (removing what is not there may then report "
                          "not-found, which the sequential model accepts as a no-op), and in a third the rules' actions also write a fact "
                          "of their own (Env.AddFact) whose stored and in-memory values must agree at the end.")
+
+# Native coverage-guided fuzzing (thorough tier only): the same generators and oracles, driven by `go test -fuzz`
+# through rapid.MakeFuzz.
+for _p, _t, _f in (("C05", "TestC05", "FuzzC05"),):
+    PROPS[_p]["parts"].append({"name": "native-fuzz", "mode": "fuzz", "test": _t, "fuzz": _f,
+                               "thorough": {"fuzztime": "120s", "timeout": 1200}})
